@@ -150,7 +150,7 @@ def _parse_san_logs(shard_dir):
                     if m:
                         kind = "ubsan:" + re.sub(r"[^a-zA-Z ]", "", m.group(1))[:50].strip().replace(" ", "-")
             if not kind:
-                if "SUMMARY:" in b or "ABORTING" in b:
+                if "SUMMARY:" in b or "ABORTING" in b or not b.strip("=\n\r -"):
                     continue
                 kind = "san:unknown"
             frames = re.findall(r"#\d+ (?:0x[0-9a-f]+ )?(?:in )?([^\s(]+)", b)
